@@ -202,6 +202,36 @@ mutant('C12', 'struct-import-drops-member', 'frappy/datatypes.py',
 mutant('C12', 'register-no-immediate-callback', 'frappy/client/__init__.py',
        "                    data = self.cache.get(key, None)\n                    if data:  # case single parameter",
        "                    data = None\n                    if data:  # case single parameter")
+# ---------------------------------------------------------------- C16
+mutant('C16', 'no-lock-in-communicate', 'frappy/io.py',
+       "        try:\n            with self._lock:\n                # read garbage and wait before send\n                if self.wait_before and self._eol_write:",
+       "        try:\n            if True:\n                # read garbage and wait before send\n                if self.wait_before and self._eol_write:")
+mutant('C16', 'no-flush-before-send', 'frappy/io.py',
+       "                        if garbage is None:  # read garbage only once\n                            garbage = self._conn.flush_recv()",
+       "                        if garbage is None:  # read garbage only once\n                            garbage = b''")
+mutant('C16', 'multicomm-without-lock', 'frappy/io.py',
+       "        replies = []\n        with self._lock:\n            for request in requests:",
+       "        replies = []\n        if True:\n            for request in requests:")
+mutant('C16', 'rxbuffer-not-kept-between-chunks', 'frappy/lib/asynconn.py',
+       "                return None\n            self._rxbuffer += data\n\n    def readbytes",
+       "                return None\n            self._rxbuffer = data\n\n    def readbytes")
+mutant('C16', 'callbacks-called-twice', 'frappy/io.py',
+       "                self._last_error = 'connected'\n                self.callCallbacks()",
+       "                self._last_error = 'connected'\n                self.callCallbacks()\n                self.callCallbacks()")
+mutant('C16', 'close-keeps-connected-flag', 'frappy/io.py',
+       "        self._last_error = self._last_error or 'disconnected'\n        self.is_connected = False",
+       "        self._last_error = self._last_error or 'disconnected'")
+mutant('C16', 'rate-limit-local-variable', 'frappy/io.py',
+       "                self._last_connect_attempt = now", "                _last_connect_attempt = now")
+mutant('C16', 'stringio-multicomm-no-delay', 'frappy/io.py',
+       "                if delay:\n                    time.sleep(delay)\n        return replies\n\n\ndef make_regexp",
+       "                if delay and False:\n                    time.sleep(delay)\n        return replies\n\n\ndef make_regexp")
+mutant('C16', 'timeout-swallowed', 'frappy/lib/asynconn.py',
+       "                    raise TimeoutError(f'timeout in readline ({timeout:g} sec)')",
+       "                    continue")
+mutant('C16', 'readbytes-returns-short', 'frappy/lib/asynconn.py',
+       "        while len(self._rxbuffer) < nbytes:\n            data = self.recv()",
+       "        while len(self._rxbuffer) < 1:\n            data = self.recv()")
 
 
 def run_mutant(prop, name, file, old, new, runs, extra):
